@@ -30,13 +30,17 @@ static int process_data(xfrm_stream_t *stream, const void *in,
 			int flush_mode)
 {
 	xfrm_stream_gzip_t *gzip = (xfrm_stream_gzip_t *)stream;
+	bool finishing;
 	sqfs_u32 diff;
 	int ret;
 
 	if (flush_mode < 0 || flush_mode >= XFRM_STREAM_FLUSH_COUNT)
 		flush_mode = XFRM_STREAM_FLUSH_NONE;
 
-	while (in_size > 0 && out_size > 0) {
+	/* keep going without input until the compressor has emitted its tail */
+	finishing = gzip->compress && flush_mode == XFRM_STREAM_FLUSH_FULL;
+
+	while ((in_size > 0 || finishing) && out_size > 0) {
 		gzip->strm.next_in = (void *)in;
 		gzip->strm.avail_in = in_size;
 
